@@ -29,11 +29,20 @@ set_option maxHeartbeats 4000000 in
 /-- Whatever is detected carries exactly that version and marker. -/
 theorem detect_sound (a b c : Int) (m : Bool) (s : Schema) (h : detectGen a b c m = .schema s) :
     s.version = (a, b, c) ∧ (s.marker = none ∨ s.marker = some m) := by
-  unfold detectGen at h
-  repeat' split at h
-  all_goals first
-    | (cases h; subst_vars; simp_all [Schema.version, Schema.marker]; done)
-    | (cases h; done)
+  -- Robust against any reordering / regrouping of the `switch` cases: fix each coordinate to one
+  -- of the constants of the public table (or to "none of them") and let `simp` evaluate the
+  -- regenerated tree, whatever its shape.
+  have ha : a = 1 ∨ a = 2 ∨ a = 3 ∨ (a ≠ 1 ∧ a ≠ 2 ∧ a ≠ 3) := by omega
+  have hb : b = 0 ∨ b = 6 ∨ b = 7 ∨ b = 9 ∨ b = 11 ∨ b = 13 ∨ b = 15 ∨ b = 17 ∨ b = 18 ∨ b = 20 ∨
+      b = 21 ∨ (b ≠ 0 ∧ b ≠ 6 ∧ b ≠ 7 ∧ b ≠ 9 ∧ b ≠ 11 ∧ b ≠ 13 ∧ b ≠ 15 ∧ b ≠ 17 ∧ b ≠ 18 ∧ b ≠ 20 ∧
+        b ≠ 21) := by omega
+  have hc : c = 0 ∨ c = 1 ∨ c = 2 ∨ c = 3 ∨ (c ≠ 0 ∧ c ≠ 1 ∧ c ≠ 2 ∧ c ≠ 3) := by omega
+  rcases ha with rfl | rfl | rfl | ha <;>
+  rcases hb with rfl | rfl | rfl | rfl | rfl | rfl | rfl | rfl | rfl | rfl | rfl | hb <;>
+  rcases hc with rfl | rfl | rfl | rfl | hc <;>
+  cases m <;>
+  simp_all [detectGen, Schema.version, Schema.marker] <;>
+  (subst h; simp [Schema.version, Schema.marker])
 
 /-- Every triple is classified exactly as the public version table says. -/
 theorem C13_exact (a b c : Int) (m : Bool) : detectGen a b c m = specDetect a b c m := by
@@ -102,7 +111,9 @@ theorem C13_unsupported_iff (a b c : Int) (m : Bool) :
 /-! ### the whole of `detect_schema`: stored 64-bit numbers -/
 
 theorem fits_int_iff (v : Int) : fits_int v = true ↔ (-2147483648 ≤ v ∧ v ≤ 2147483647) := by
-  unfold fits_int; simp
+  unfold fits_int
+  simp only [Bool.and_eq_true, decide_eq_true_eq]
+  omega
 
 theorem narrowI32_of_fits (v : Int) (h : fits_int v = true) : narrowI32 v = v := by
   rw [fits_int_iff] at h; unfold narrowI32; omega
